@@ -50,7 +50,8 @@ InBucket(B) ==
   IN IF L > MaxLenFor(V) \/ B[3] > Len(V) \/ B[4] > Len(V) \/ B[3] > B[4] \/ (L = 1 /\ B[3] # B[4]) THEN {}
      ELSE {k \in {[i \in 1..L |-> V[s[i]]] : s \in {t \in ND(L, 1, Len(V)) : t[1] = B[3] /\ (L = 1 \/ t[2] = B[4])}} : KnotsValid(k)}
 \* size sweep: long knot vectors (a triple knot at both ends and a double knot in the middle / simple knots only)
-GenSweepM == IF Thorough THEN (8..40) \cup {63, 64, 65, 66, 67, 130} ELSE {9, 12, 16, 17, 18, 24, 32, 33, 34, 40, 65}
+\* (the same sizes in both tiers: the thorough tier's own knot families already take most of its TLC time)
+GenSweepM == {9, 12, 16, 17, 18, 24, 32, 33, 34, 40, 65}
 KnotSweep(m) == [i \in 1..m |-> FromInt(2 * (Max(0, Min(i - 3, m - 5)) - (IF i > m \div 2 THEN 1 ELSE 0)) - (m - 6))]
 KnotSimple(m) == [i \in 1..m |-> FromInt(2 * i - m + (IF i % 3 = 0 THEN 1 ELSE 0))]
 Init == \/ \E B \in Buckets : st = [ph |-> -1, b |-> B]
